@@ -15,7 +15,7 @@ import rt
 MAX = obs.MAX_EV_BUF
 
 
-def gen_thread(rng, tid, cpu, mode, nmarks):
+def gen_thread(rng, tid, cpu, mode, nmarks, deltas=None):
     """One conformant thread section.  All clocks are 'now'."""
     ops = ["init %d" % tid, "vercheck", "cpu %d %d" % (cpu, cpu), "require nosv 2.0.0"]
     ops.append("mark_type 1 0 verif single")
@@ -60,9 +60,10 @@ def gen_thread(rng, tid, cpu, mode, nmarks):
                 ops.append(jumbo(16 + rng.choice([0, 1, 5, 100, 4096, rng.randint(0, 20000)])))
 
     if mode == "target":
-        # fill level L when a jumbo of total size T arrives
-        for _ in range(rng.randint(1, 3)):
-            T = MAX - rng.randint(1, 64)
+        # fill level L when a jumbo of total size T arrives; the distances
+        # MAX - T = 1..64 are covered systematically (deltas), not by chance
+        for d in (deltas or [rng.randint(1, 64)]):
+            T = MAX - d
             Lkind = rng.choice(["empty", "12", "28", "random", "half"])
             ops.append("flush"); lvl[0] = 24
             if Lkind == "empty":
@@ -107,8 +108,11 @@ def gen_case(chk, i):
     nth = 1 if mode in ("dense",) or rng.random() < 0.6 else rng.randint(2, 4)
     secs = []
     infos = []
+    # target cases are numbered so that 22 consecutive ones cover 1..64 (+2 random)
+    tindex = (i // 8) * 4 + [0, 1, 2, 6].index(i % 8) if i % 8 in (0, 1, 2, 6) else 0
+    deltas = [1 + (tindex * 3 + k) % 64 for k in range(3)]
     for t in range(nth):
-        ops, inf = gen_thread(rng, 500 + t, t, mode if t == 0 else "soup", 0)
+        ops, inf = gen_thread(rng, 500 + t, t, mode if t == 0 else "soup", 0, deltas if t == 0 else None)
         if t > 0:
             # the first thread declares all CPUs of the loom; the others none
             ops = [o for o in ops if not o.startswith("cpu ")]
